@@ -83,7 +83,7 @@ CHECKS = {
         ref="3 C07", technique="Lean 4 proof (fee formulas over exact rationals) + model/implementation correspondence; built-transaction sufficiency by direct evaluation",
         note=TB + "PARTIAL: the two-pass estimate inside build() is not modelled; sufficiency / tightness of built "
                   "transactions are decided by evaluation of the implementation against the exact ledger minimum "
-                  "(recorded defect KF-C07-width-boundary); float-valued protocol parameters are not exercised."),
+                  "(defect KF-C07-width-boundary was found this way and repaired); float-valued protocol parameters are not exercised."),
     "C08": dict(
         text="Lean theorems over the models of TransactionOutput serialization, min_lovelace_post_alonzo, the negative-"
              "quantity refusal and _calc_change / token packing: minimum-ADA formula; independence of the minimum from the "
